@@ -77,6 +77,7 @@ type vtimer struct {
 	obj      *value // the time.Timer / Ticker struct
 	id       int
 	when     value // deadline (clock units), informational
+	dur      int64 // duration it was armed with, 0 when not concrete
 }
 
 type scheduler struct {
@@ -242,7 +243,7 @@ func (s *scheduler) firableTimers() []*vtimer {
 	}
 	var ts []*vtimer
 	for _, t := range s.timers {
-		if t.active {
+		if t.active && (s.m.limits.TimerHorizonNS == 0 || t.dur <= s.m.limits.TimerHorizonNS) {
 			ts = append(ts, t)
 		}
 	}
